@@ -1,0 +1,157 @@
+//go:build verif
+
+package prolog
+
+//@ -- reflect (assumptions; named so that the arguments of their calls can be pinned): "Field returns a struct type's i'th
+//@ -- field"; "Lookup returns the value associated with key in the tag string. If the key is present in the tag the value
+//@ -- (which may be empty) is returned. Otherwise the returned value will be the empty string. The ok return value reports
+//@ -- whether the value was explicitly set in the tag string."
+//@ extern reflect.Type.Field
+//@   pure
+//@ extern reflect.StructTag.Lookup
+//@   pure
+//@   ensures[otherwise-the-returned-value-will-be-the-empty-string] !result1 ==> len(result0) == 0
+
+//@ -- (*Interpreter).ExecContext: its contract is in verif_contracts_c20init.go (it also carries C15)
+
+//@ -- (*Interpreter).Exec: its contract is in verif_contracts_c20init.go (it also carries C15)
+
+//@ func (*Interpreter).QueryContext
+//@   property C15
+//@   nosafety
+//@   trusted-frame
+//@   bind p = engine.NewParser#1
+//@   bind serr = engine.(*Parser).SetPlaceholder#1
+//@   bind t, terr = engine.(*Parser).Term#1
+//@   at-call engine.NewParser requires[the-query-is-read-under-this-interpreter-s-flags-and-operators] a0 == &i.VM
+//@   at-call engine.(*Parser).SetPlaceholder requires[the-arguments-stand-for-the-question-marks-of-this-query] a0 == p && a1 == engine.NewAtom("?") && a2 == args
+//@   at-call engine.(*Parser).Term requires[the-query-is-read-by-the-parser-that-holds-the-arguments] a0 == p && called(serr) && serr == nil
+//@   ensures[a-value-that-is-not-data-is-an-error] called(serr) && (serr != nil ==> result1 == serr && result0 == nil)
+//@   ensures[a-query-that-does-not-read-with-exactly-these-arguments-is-an-error] called(terr) && terr != nil ==> result1 == terr && result0 == nil
+//@   ensures[otherwise-an-iterator-that-has-not-started] result1 == nil ==> result0 != nil && !result0.done && !result0.closed
+
+//@ func (*Interpreter).Query
+//@   property C15
+//@   nosafety
+//@   bind sols, qerr = (*Interpreter).QueryContext#1
+//@   at-call (*Interpreter).QueryContext requires[the-text-and-the-arguments-are-handed-on-unchanged] a0 == i && a2 == query && a3 == args
+//@   ensures[what-the-query-reports-is-reported] called(qerr) && result0 == sols && result1 == qerr
+
+//@ -- (the typestate precondition of Next - the ghost field `exhausted` of the iterator - cannot be established for an
+//@ -- object allocated inside QueryContext: the engine leaves ghost fields of fresh objects unconstrained; so of this
+//@ -- body the at-call pins and the postconditions are checked, the preconditions of Next/Err/Close at their calls are not)
+//@ func (*Interpreter).QuerySolutionContext
+//@   property C15
+//@   nosafety
+//@   trusted-frame
+//@   checks only at-call at-call-missing post
+//@   bind sols, qerr = (*Interpreter).QueryContext#1
+//@   bind more = (*Solutions).Next#1
+//@   bind cerr = (*Solutions).Close#1
+//@   at-call (*Interpreter).QueryContext requires[the-text-and-the-arguments-are-handed-on-unchanged] a0 == i && a1 == ctx && a2 == query && a3 == args
+//@   at-call (*Solutions).Next requires[the-first-answer-of-that-query] a0 == sols && qerr == nil
+//@   ensures[always-a-solution-that-holds-an-answer-or-an-error] result != nil && (result.err != nil || result.sols != nil)
+//@   ensures[an-error-of-the-arguments-or-the-text-is-kept-for-scan] called(qerr) && (qerr != nil ==> result.err == qerr)
+//@   bind e = (*Solutions).Err#1
+//@   at-call (*Solutions).Err requires[the-error-of-that-query] a0 == sols
+//@   ensures[no-answer-is-an-error] called(more) && !more ==> result.err != nil
+//@   ensures[the-error-the-search-ended-with-is-kept-for-scan] called(more) && !more && called(e) && e != nil ==> result.err == e
+//@   ensures[no-answer-without-an-error-is-err-no-solutions] called(more) && !more && called(e) && e == nil ==> result.err == ErrNoSolutions
+//@   ensures[scan-reads-the-answer-of-that-query] called(more) && more ==> result.sols == sols && called(cerr) && result.err == cerr
+
+//@ func (*Interpreter).QuerySolution
+//@   property C15
+//@   nosafety
+//@   bind sol = (*Interpreter).QuerySolutionContext#1
+//@   at-call (*Interpreter).QuerySolutionContext requires[the-text-and-the-arguments-are-handed-on-unchanged] a0 == i && a2 == query && a3 == args
+//@   ensures[what-the-query-reports-is-reported] called(sol) && result == sol
+
+//@ func (*Solution).Scan
+//@   property C15
+//@   requires s != nil
+//@   requires[a-solution-holds-an-answer-or-an-error] s.err != nil || s.sols != nil
+//@   nosafety
+//@   bind serr = (*Solutions).Scan#1
+//@   at-call (*Solutions).Scan requires[scans-the-answer-found-into-the-destination-given] a0 == s.sols && a1 == dest && s.err == nil
+//@   ensures[a-query-that-failed-scans-nothing] old(s.err) != nil ==> !called(serr) && result == old(s.err)
+//@   ensures[otherwise-what-scan-reports] old(s.err) == nil ==> called(serr) && result == serr
+
+//@ -- the user's own conversion (interface method, implemented outside the library): named so that the dispatcher can say
+//@ -- when it is called and with what; nothing is claimed about it (any result, any effect)
+//@ func Scanner.Scan
+//@   nosafety
+//@   modifies heap
+
+//@ -- the type-directed dispatcher of Scan: the destination's type alone selects the converter, the converter gets that very
+//@ -- destination, the term and the environment of the answer, and what it reports is reported
+//@ -- (the converters require a non-nil destination pointer; that Scan's reflection glue only ever hands over addresses of
+//@ -- fields, of fresh values and of slice elements is not decided here - a nil destination is a panic, not a wrong value -
+//@ -- so of this body the at-call pins and the postconditions are checked, the converters' `d != nil` at the calls is not)
+//@ func convertAssign
+//@   property C15
+//@   nosafety
+//@   trusted-frame
+//@   checks only at-call at-call-missing post
+//@   bind rany = convertAssignAny#1
+//@   bind rstr = convertAssignString#1
+//@   bind rint = convertAssignInt#1
+//@   bind ri8 = convertAssignInt8#1
+//@   bind ri16 = convertAssignInt16#1
+//@   bind ri32 = convertAssignInt32#1
+//@   bind ri64 = convertAssignInt64#1
+//@   bind rf64 = convertAssignFloat64#1
+//@   bind rscan = prolog.Scanner.Scan#1
+//@   bind rslice = convertAssignSlice#1
+//@   at-call convertAssignAny requires[that-destination-that-term-that-environment] dest == a0 && a1 == vm && a2 == t && a3 == env
+//@   at-call convertAssignString requires[that-destination-that-term-that-environment] dest == a0 && a1 == t && a2 == env
+//@   at-call convertAssignInt requires[that-destination-that-term-that-environment] dest == a0 && a1 == t && a2 == env
+//@   at-call convertAssignInt8 requires[that-destination-that-term-that-environment] dest == a0 && a1 == t && a2 == env
+//@   at-call convertAssignInt16 requires[that-destination-that-term-that-environment] dest == a0 && a1 == t && a2 == env
+//@   at-call convertAssignInt32 requires[that-destination-that-term-that-environment] dest == a0 && a1 == t && a2 == env
+//@   at-call convertAssignInt64 requires[that-destination-that-term-that-environment] dest == a0 && a1 == t && a2 == env
+//@   at-call convertAssignFloat64 requires[that-destination-that-term-that-environment] dest == a0 && a1 == t && a2 == env
+//@   at-call prolog.Scanner.Scan requires[a-scanner-is-handed-the-term-and-the-environment-of-the-answer] a0 == dest && a1 == vm && a2 == t && a3 == env
+//@   ensures[a-scanner-s-own-verdict-is-reported] called(rscan) ==> result == rscan
+//@   at-call convertAssignSlice requires[that-destination-that-term-that-environment] a0 == dest && a1 == vm && a2 == t && a3 == env
+//@ -- (*interface{} cannot be named in a clause: that it is handed to convertAssignAny is the at-call pin `dest == a0` above)
+//@   ensures[an-interface-destination-takes-any-value] called(rany) ==> result == rany
+//@   ensures[a-string-destination] dest is *string ==> called(rstr) && result == rstr
+//@   ensures[an-int-destination] dest is *int ==> called(rint) && result == rint
+//@   ensures[an-int8-destination] dest is *int8 ==> called(ri8) && result == ri8
+//@   ensures[an-int16-destination] dest is *int16 ==> called(ri16) && result == ri16
+//@   ensures[an-int32-destination] dest is *int32 ==> called(ri32) && result == ri32
+//@   ensures[an-int64-destination] dest is *int64 ==> called(ri64) && result == ri64
+//@   ensures[a-float64-destination] dest is *float64 ==> called(rf64) && result == rf64
+//@   ensures[every-other-destination-is-a-slice-or-an-error] !called(rany) && !(dest is *string) && !(dest is *int) && !(dest is *int8) && !(dest is *int16) && !(dest is *int32) && !(dest is *int64) && !(dest is *float32) && !(dest is *float64) && !called(rscan) ==> called(rslice) && result == rslice
+
+//@ -- a float32 destination is outside the property statement (the nearest float32 is stored: rounding is inherent in the
+//@ -- destination type); what is pinned: only a float answer is accepted, anything else is the conversion error and stores nothing
+//@ func convertAssignFloat32
+//@   property C15
+//@   requires d != nil
+//@   bind v = engine.(*Env).Resolve#1
+//@   modifies *d
+//@   at-call engine.(*Env).Resolve requires[resolves-the-answer] a0 == env && a1 == t
+//@   ensures[only-a-float-is-accepted] result == nil ==> v is engine.Float
+//@   ensures[not-a-float] !(v is engine.Float) ==> result == errConversion && same(*d, old(*d))
+//@   ensures[closed] result == nil || result == errConversion
+
+//@ -- Scan into a TermString: write_term of that term in the answer's environment with quoted(true), into a stream over a
+//@ -- string builder, and the text is read from that same builder
+//@ -- (results of functions outside the two packages cannot be bound, so that *t receives exactly what Builder.String
+//@ -- returned is not pinned)
+//@ func (*TermString).Scan
+//@   property C15
+//@   requires t != nil
+//@   nosafety
+//@   trusted-frame
+//@   bind out = engine.NewOutputTextStream#1
+//@   bind opts = engine.List#1
+//@   at-call engine.NewOutputTextStream requires[a-stream-over-a-string-builder] a0 is *strings.Builder
+//@   at-call engine.WriteTerm requires[that-term-in-the-answer-s-environment] a0 == vm && a2 == term && a5 == env
+//@   at-call engine.WriteTerm requires[into-the-stream-over-the-string-builder] called(out) && a1 == out
+//@   at-call engine.WriteTerm requires[with-the-one-option-made-here] called(opts) && a3 == opts
+//@   at-call engine.List requires[the-one-option-is-quoted-true] len(a0) == 1 && a0[0] is *engine.compound && (a0[0] as *engine.compound).functor == engine.NewAtom("quoted") &&
+//@       len((a0[0] as *engine.compound).args) == 1 && (a0[0] as *engine.compound).args[0] == engine.NewAtom("true")
+//@   at-call (*strings.Builder).String requires[the-text-of-the-builder-written-to] called(out) && a0 == (argof(out, 0) as *strings.Builder)
+//@   ensures[never-an-error] result == nil
